@@ -184,7 +184,7 @@ func c03Classes(f fieldCase3, cl map[string]int64) (nontrivial bool) {
 func TestC03(t *testing.T) {
 	c := begin(t, "C03")
 	defer c.end()
-	c.rec.F.Rule = "layer1 (complete): 2 versions x 64 (CR,IR,AR) x 27 (MC,MI,MA) x 2 (MS) x 48 (MAV,MAC,MPR,MUI) x 100 (E,RL,RC) = 33,177,600 objects with every Modified metric defined and every base metric set to a *different* value, built by assigning exported fields; layer2: the version x base x environmental product (11,466,178,560 points; quick: 3,000,000 points chosen by a seeded pseudo-random bijection (Feistel network) of the index space, distinct by construction; thorough: complete), temporal metrics chosen by a hash of the index; layer3: rapid well-formed environmental vectors through Decode (random order, omission, explicit X). Non-trivial: layer1 all with modified impact > 0; layer2 at least one Modified metric X (falls back to the base value) and at least one defined; layer3 at least one environmental metric defined."
+	c.rec.F.Rule = "layer1 (complete): 2 versions x 64 (CR,IR,AR) x 27 (MC,MI,MA) x 2 (MS) x 48 (MAV,MAC,MPR,MUI) x 100 (E,RL,RC) = 33,177,600 objects with every Modified metric defined and every base metric set to a *different* value, built by assigning exported fields; layer2: the version x base x environmental product (11,466,178,560 points; quick: 3,000,000 points chosen by a seeded pseudo-random bijection (Feistel network) of the index space, distinct by construction; thorough: complete), temporal metrics chosen by a hash of the index; layer3: rapid well-formed environmental vectors through Decode (random order, omission, explicit X); layer4: for every version x base combination, the vector whose eight Modified metrics are written out equal to the base metrics, and its variants with exactly one Modified metric changed or one requirement raised, through Decode (quick: a quarter of the variants). Non-trivial: layer1 all with modified impact > 0; layer2 at least one Modified metric X (falls back to the base value) and at least one defined; layer3 at least one environmental metric defined."
 	c.rec.F.Assumptions = []string{"reference model: exact rational MISS with 0.915 cap, version-specific changed-scope polynomial, exact exploitability with PR weights by effective scope, double Roundup (harness/spec)", "objects built from the exported constructor plus exported-field assignment, as property C03 allows"}
 
 	// ---- layer 1 ---------------------------------------------------------------------
@@ -333,6 +333,53 @@ func TestC03(t *testing.T) {
 			}
 		}
 		c.rec.Bulk("layer2-base-x-environmental", evals, nt, cl)
+	}
+
+	// ---- layer 4: through the decoder, vectors whose Modified metrics *restate* the base
+	// metrics (all eight explicit and equal), and the same with exactly one of them changed to
+	// every other value; requirements neutral or one of them raised. A decoder that recognises
+	// "nothing modified" must still follow the version's environmental formula.
+	{
+		nviol := 0
+		var evals, nt int64
+		forEachV3Base(func(i int, x spec.V3Idx) {
+			if nviol > 0 || !mine(i) {
+				return
+			}
+			restate := [11]int{0, 0, 0, x.B[0] + 1, x.B[1] + 1, x.B[2] + 1, x.B[3] + 1, x.B[4] + 1, x.B[5] + 1, x.B[6] + 1, x.B[7] + 1}
+			variants := [][11]int{restate}
+			for m := 3; m < 11; m++ {
+				for val := 1; val < envDims[m]; val++ {
+					if val != restate[m] {
+						v := restate
+						v[m] = val
+						variants = append(variants, v)
+					}
+				}
+			}
+			req := restate
+			req[i%3] = 1 + i%3 // one requirement H / M / L
+			variants = append(variants, req)
+			for vi, e := range variants {
+				if !thorough() && vi > 0 && (i+vi)%4 != 0 { // quick: the restating vector of every base, a quarter of the variants
+					continue
+				}
+				f := fieldCase3{Ver: x.Ver, B: x.B, E: e}
+				f.T = [3]int{(i + vi) % 5, (i / 5) % 5, vi % 4}
+				vec := gen.V3FromIdx(f.idx(), spec.Environmental, true)
+				if vi%2 == 1 { // modified tokens ahead of the base tokens in every other variant
+					vec.Toks = append(append([]spec.Tok(nil), vec.Toks[8:]...), vec.Toks[:8]...)
+				}
+				cs := scoreCase3{Level: 2, NilRecv: vi%3 == 0, Input: vec.String()}
+				evals++
+				nt++
+				if c.rec.SampleCount() < 12 && i%1733 == 0 && vi == 0 {
+					c.rec.Sample(cs)
+				}
+				evalEnum(c, "decode", cs, checkC03Decode, &nviol)
+			}
+		})
+		c.rec.Bulk("layer4-restating-vectors-decoded", evals, nt, map[string]int64{"layer4:restating-or-one-off": evals})
 	}
 
 	// ---- layer 3 ---------------------------------------------------------------------
